@@ -37,7 +37,13 @@ def _inl(inls, c: _C) -> str:
     for i in inls:
         t = i[0]
         if t == "r":
-            out.append(f'<text:span text:style-name="T1">{word(i[1])}</text:span>')
+            w_ = word(i[1])
+            if i[1] % 3 == 0:        # one word split over two spans
+                out.append(f'<text:span text:style-name="T1">{w_[:4]}</text:span><text:span text:style-name="T1">{w_[4:]}</text:span>')
+            elif i[1] % 3 == 1:      # bare text node
+                out.append(w_)
+            else:
+                out.append(f'<text:span text:style-name="T1">{w_}</text:span>')
         elif t == "tab":
             out.append("<text:tab/>")
         elif t == "br":
